@@ -21,6 +21,19 @@ CHECKS = {
         "runtime monitoring: reference-model oracle over reader emissions + icontract post-conditions vs independent scanner",
         "3/C02",
     ),
+    "C15": (
+        "exploration",
+        "Runtime monitor on the real ford.initialize() (argparse + load_settings + parse_arguments): every field of ProjectSettings "
+        "(introspected at run time) x representative/boundary values is written as project-file metadata, fpm.toml [extra.ford] and "
+        "--config and loaded from three working directories (with decoy paths in the foreign ones); the resulting settings objects "
+        "are compared across formats/cwds and with a reference semantics; CLI>file>default per argparse option; unknown keys and "
+        "ill-typed values per format; icontract post-condition on convert_setting (result conforms to the declared type).",
+        "Trusts the harness' three renderers to express the same option set; values avoid ';' and leading/trailing blanks; one "
+        "known finding (--config skips __post_init__ normalisation) is suppressed only for differences confined to the fields "
+        "__post_init__ normalises.",
+        "runtime monitoring: metamorphic (3 formats x 3 cwds) + reference-model oracle over real settings objects, contract on convert_setting",
+        "3/C15",
+    ),
 }
 
 NA_REASON = "check not built yet (build in progress in this session; see DESIGN.md section 3 for the planned monitor)"
